@@ -153,6 +153,8 @@ theorem zstdLoop_reads (R : Reader) (cap : Nat) :
 
 /-! ### gzip loop -/
 
+theorem breaks_on_eof : Gen.Codec.gzipBreaksOnEof = true := rfl
+
 theorem gzipFinish_noFuel (Z : ZObj) (cap : Nat) (s : Z.σ) (total : Nat) (acc : Bytes) (reads : List Nat) :
     (gzipFinish Z cap s total acc reads).out ≠ .fuel := by
   simp only [gzipFinish]
@@ -161,6 +163,33 @@ theorem gzipFinish_noFuel (Z : ZObj) (cap : Nat) (s : Z.σ) (total : Nat) (acc :
   · split
     · simp
     · split <;> simp
+
+/-- a chunk that neither tripped the limit, nor ended the member, nor was "empty with no tail" is non-empty and fitted -/
+theorem gzip_continue {Z : ZObj} {c : Bytes} {s' : Z.σ} (hst : c = [] → Z.hasTail s' = false ∨ Z.eof s' = true)
+    {total cap : Nat}
+    (h1 : ¬ ((!c.isEmpty && cmp Gen.Codec.gzipLoopCmp (total + c.length) cap) = true))
+    (h2 : ¬ ((Gen.Codec.gzipBreaksOnEof && Z.eof s') = true))
+    (h3 : ¬ ((c.isEmpty && !Z.hasTail s') = true)) : 1 ≤ c.length ∧ total + c.length ≤ cap := by
+  have hc : c.isEmpty = false := by
+    cases hce : c.isEmpty with
+    | false => rfl
+    | true =>
+      have hnil : c = [] := List.isEmpty_iff.mp hce
+      rcases hst hnil with ht | he
+      · simp [hce, ht] at h3
+      · simp [breaks_on_eof, he] at h2
+  refine ⟨isEmpty_false_len hc, ?_⟩
+  rw [gzipLoopCmp_gt] at h1
+  simp [hc] at h1
+  exact h1
+
+/-- a chunk that did not trip the limit fitted (or was empty) -/
+theorem gzip_fit {c : Bytes} {total cap : Nat} (hle : total ≤ cap)
+    (h1 : ¬ ((!c.isEmpty && cmp Gen.Codec.gzipLoopCmp (total + c.length) cap) = true)) : total + c.length ≤ cap := by
+  rw [gzipLoopCmp_gt] at h1
+  cases hce : c.isEmpty with
+  | true => have : c = [] := List.isEmpty_iff.mp hce; simp [this]; exact hle
+  | false => simp [hce] at h1; exact h1
 
 /-- termination for every decompress object that does not stall -/
 theorem gzipLoop_fuel (Z : ZObj) (hS : NoStall Z) (cap : Nat) :
@@ -183,23 +212,17 @@ theorem gzipLoop_fuel (Z : ZObj) (hS : NoStall Z) (cap : Nat) :
           split
           · exact gzipFinish_noFuel _ _ _ _ _ _
           · rename_i h2
-            -- the chunk is non-empty (an empty one with a tail would be a stall), and it fitted
-            have hc : c.isEmpty = false := by
-              cases hce : c.isEmpty with
-              | false => rfl
-              | true =>
-                have : c = [] := List.isEmpty_iff.mp hce
-                have := hS _ _ _ _ _ hdec this
-                simp [hce, this] at h2
-            have hl := isEmpty_false_len hc
-            rw [gzipLoopCmp_gt] at h1
-            simp [hc] at h1
-            exact ih _ _ _ _ _ (by omega)
+            split
+            · exact gzipFinish_noFuel _ _ _ _ _ _
+            · rename_i h3
+              have := gzip_continue (hS _ _ _ _ _ hdec) h1 h2 h3
+              exact ih _ _ _ _ _ (by omega)
 
 theorem gzipFinish_honest (Z : ZObj) (rem : Z.σ → Bytes) (fed : Z.σ → Prop)
-    (hflush : ∀ s, fed s → Z.hasTail s = false → ∃ s', Z.flush s = some (rem s, s') ∧ Z.eof s' = true)
+    (hflush : ∀ s, fed s → (Z.hasTail s = false ∨ Z.eof s = true) → ∃ s', Z.flush s = some (rem s, s') ∧ Z.eof s' = true)
     (x : Bytes) (cap : Nat) (s : Z.σ) (total : Nat) (acc : Bytes) (reads : List Nat)
-    (hfed : fed s) (hnt : Z.hasTail s = false) (hx : acc ++ rem s = x) (ht : total = acc.length) (hle : total ≤ cap) :
+    (hfed : fed s) (hnt : Z.hasTail s = false ∨ Z.eof s = true) (hx : acc ++ rem s = x) (ht : total = acc.length)
+    (hle : total ≤ cap) :
     (gzipFinish Z cap s total acc reads).out = if x.length ≤ cap then .ok x else .limit := by
   obtain ⟨s', hfl, heof⟩ := hflush s hfed hnt
   have hxl : x.length = total + (rem s).length := by rw [← hx]; simp [ht]
@@ -217,8 +240,8 @@ theorem gzipFinish_honest (Z : ZObj) (rem : Z.σ → Bytes) (fed : Z.σ → Prop
 /-- the result for a decompress object fed one complete gzip member of plaintext `x` -/
 theorem gzipLoop_honest (Z : ZObj) (rem : Z.σ → Bytes) (fed : Z.σ → Prop)
     (hdec : ∀ s f n, 1 ≤ n → ∃ c s', Z.dec s f n = some (c, s') ∧ c ++ rem s' = rem s ∧ c.length ≤ n ∧ fed s' ∧
-        (c = [] → Z.hasTail s' = false))
-    (hflush : ∀ s, fed s → Z.hasTail s = false → ∃ s', Z.flush s = some (rem s, s') ∧ Z.eof s' = true)
+        (c = [] → Z.hasTail s' = false ∨ Z.eof s' = true))
+    (hflush : ∀ s, fed s → (Z.hasTail s = false ∨ Z.eof s = true) → ∃ s', Z.flush s = some (rem s, s') ∧ Z.eof s' = true)
     (x : Bytes) (cap : Nat) :
     ∀ fuel s remaining total acc reads, acc ++ rem s = x → total = acc.length → total ≤ cap →
       (remaining = true → Z.hasTail s = false) → (remaining = false → fed s) → cap - total + 2 ≤ fuel →
@@ -232,11 +255,13 @@ theorem gzipLoop_honest (Z : ZObj) (rem : Z.σ → Bytes) (fed : Z.σ → Prop)
     split
     · rename_i hw
       simp only [Bool.not_eq_true', Bool.or_eq_false_iff] at hw
-      exact gzipFinish_honest Z rem fed hflush x cap s total acc reads (hfed hw.1) hw.2 hx ht hle
+      exact gzipFinish_honest Z rem fed hflush x cap s total acc reads (hfed hw.1) (Or.inl hw.2) hx ht hle
     · obtain ⟨c, s', hd, hsplit, _hlen, hfed', hstall⟩ := hdec s (!Z.hasTail s) _ (gzip_req_pos cap total)
       simp only [hd]
       have hxl : x.length = total + c.length + (rem s').length := by
         rw [← hx, ← hsplit]; simp [ht]; omega
+      have hx' : (acc ++ c) ++ rem s' = x := by rw [← hx, ← hsplit]; simp
+      have ht' : total + c.length = (acc ++ c).length := by simp [ht]
       split
       · rename_i h1
         rw [gzipLoopCmp_gt] at h1
@@ -244,37 +269,28 @@ theorem gzipLoop_honest (Z : ZObj) (rem : Z.σ → Bytes) (fed : Z.σ → Prop)
         have : ¬ x.length ≤ cap := by omega
         simp [this]
       · rename_i h1
+        have hfit := gzip_fit hle h1
         split
         · rename_i h2
-          simp only [Bool.and_eq_true, Bool.not_eq_true', List.isEmpty_iff] at h2
-          have hc := h2.1
-          subst hc
-          simp at hsplit
-          exact gzipFinish_honest Z rem fed hflush x cap s' total acc _ hfed' h2.2 (by rw [hsplit]; exact hx) ht hle
+          simp only [Bool.and_eq_true] at h2
+          exact gzipFinish_honest Z rem fed hflush x cap s' _ _ _ hfed' (Or.inr h2.2) hx' ht' hfit
         · rename_i h2
-          have hc : c.isEmpty = false := by
-            cases hce : c.isEmpty with
-            | false => rfl
-            | true =>
-              have : c = [] := List.isEmpty_iff.mp hce
-              have := hstall this
-              simp [hce, this] at h2
-          have hl := isEmpty_false_len hc
-          rw [gzipLoopCmp_gt] at h1
-          simp [hc] at h1
-          apply ih
-          · rw [← hx, ← hsplit]; simp
-          · simp [ht]
-          · exact h1
-          · intro hr
-            -- `remaining` can only stay true if there was a tail, which the invariant excludes
-            by_cases hts : Z.hasTail s = true
-            · simp [hts] at hr
-              have := hrem hr
-              simp [hts] at this
-            · simp [hts] at hr
-          · intro _; exact hfed'
-          · omega
+          split
+          · rename_i h3
+            simp only [Bool.and_eq_true, Bool.not_eq_true'] at h3
+            exact gzipFinish_honest Z rem fed hflush x cap s' _ _ _ hfed' (Or.inl h3.2) hx' ht' hfit
+          · rename_i h3
+            have hc := gzip_continue hstall h1 h2 h3
+            apply ih _ _ _ _ _ hx' ht' hfit
+            · intro hr
+              -- `remaining` can only stay true if there was a tail, which the invariant excludes
+              by_cases hts : Z.hasTail s = true
+              · simp [hts] at hr
+                have := hrem hr
+                simp [hts] at this
+              · simp [hts] at hr
+            · intro _; exact hfed'
+            · omega
 
 /-- allocation bound of the gzip loop: the in-loop reads are capped by the sentinel; `flush()` is not capped by this
 code, so its size is a hypothesis on the library -/
@@ -310,13 +326,12 @@ theorem gzipLoop_peak (Z : ZObj) (hB : BoundedDec Z) (B : Nat) (hB1 : 1 ≤ B)
         split
         · simp; omega
         · rename_i h1
+          have hfit := gzip_fit hle h1
           split
-          · exact gzipFinish_peak Z B hF cap s' total acc _ hle
-          · apply ih
-            rw [gzipLoopCmp_gt] at h1
-            cases hce : c.isEmpty with
-            | true => have : c = [] := List.isEmpty_iff.mp hce; simp [this]; exact hle
-            | false => simp [hce] at h1; exact h1
+          · exact gzipFinish_peak Z B hF cap s' _ _ _ hfit
+          · split
+            · exact gzipFinish_peak Z B hF cap s' _ _ _ hfit
+            · exact ih _ _ _ _ _ hfit
 
 theorem mem_decompressDispatch (e : Enc) : e.name ∈ Gen.Codec.decompressDispatch := by cases e <;> decide
 theorem mem_compressDispatch (e : Enc) : e.name ∈ Gen.Codec.compressDispatch := by cases e <;> decide
@@ -413,7 +428,7 @@ theorem C18_cap_gzip (G : GFrame) (x : Bytes) (h : HonestG G x) : CapCorrect (fu
   obtain ⟨hne, hnt, rem, fed, hrem, hdec, hall, hflush⟩ := h
   refine ⟨?_, ?_⟩
   · obtain ⟨a, s1, hda, hsplit, hfed1, hnt1⟩ := hall G.s0
-    obtain ⟨s2, hfl, heof⟩ := hflush s1 hfed1 hnt1
+    obtain ⟨s2, hfl, heof⟩ := hflush s1 hfed1 (Or.inl hnt1)
     simp [gzipDecode, hda, hfl, heof, hsplit, hrem]
   · intro cap
     simp only [gzipDecode]
@@ -520,6 +535,7 @@ example (x : Bytes) : HonestG ⟨greedyZ, (x, false), true⟩ x := by
         cases n with
         | zero => omega
         | succ m => simp at hc
+    left
     simp [greedyZ, this]
   · intro s; exact ⟨s.1, ([], true), rfl, by simp, rfl, by simp [greedyZ]⟩
   · intro s _ _; exact ⟨([], true), rfl, by simp [greedyZ]⟩
